@@ -53,6 +53,10 @@ def cases():
             lambda o, i: _dec(o, "TryCast", "p", "s"), "the TRY_ forms must yield NULL on failure (TRY_CAST), with precision and scale in order")
         add(f"{fn}(x) -> TRY_CAST(x AS DECIMAL(38, 0))", "try_to_decimal", mk(lambda o, fn=fn: anon(fn, op(o, "x"))),
             lambda o, i: _dec(o, "TryCast"), "defaults 38, 0")
+    for fn in ("TRY_TO_DECIMAL", "TRY_TO_NUMBER"):
+        add(f"{fn}(x, '<format>', p, s) is rejected, not answered", "try_to_decimal",
+            mk(lambda o, fn=fn: anon(fn, op(o, "x"), lit("9,999.99", True), lit("10", False), lit("2", False))),
+            RAISES, "the format argument is not supported: silently answering NULL (or ignoring the format) returns a wrong value for a valid input")
     # --- dates and timestamps
     add("TO_DATE(x) -> CAST(x AS DATE)", "to_date", mk(lambda o: anon("to_date", op(o, "x"))),
         lambda o, i: P("Cast", this=IS(o["x"]), to=P("DataType", this=ENUM("DATE"))), "TO_DATE yields a DATE of its argument")
